@@ -15,7 +15,10 @@
     `gjson.GetBytes(json, "hashes.sha256").Str` = the string at that path (first occurrences);
   * `CanonicalJSONAssumeValid` / `CanonicalJSON ∘ json.Marshal` = `encodeCanon` on values without
     duplicate keys (C01 proves this for the byte-level model of json.go);
-  * SHA-256 is a parameter `H`.
+  * SHA-256 is a parameter `H`;
+  * `duplicateJSONKey` of event.go (one pass over the text) = `JVal.noDupKeys` of the value the text denotes, and
+    `strings.EqualFold` against the ASCII field names = equality of `foldBytes` (texts with ill-formed Unicode are
+    outside the model).
 -/
 import VModel.Redact
 import VModel.Event
@@ -247,9 +250,14 @@ def checkRoomIDField (id : Bytes) : Except Err Unit :=
 
 def isCreateF (f : Fields) : Bool := f.type == b!"m.room.create" && f.stateKey == some []
 
-/-- `checkRoomID` of eventV3.go -/
+/-- `checkRoomID` of eventV3.go.  The room ID of a create event derives from its event ID; a `room_id` member that
+    is present anyway is held to the two length limits (an `EventValidationError`, never persistable: no event is
+    returned), and to nothing else. -/
 def checkRoomIDV3 (f : Fields) : Except Err Unit :=
-  if isCreateF f then .ok ()
+  if isCreateF f then
+    (if runeCount f.roomID > maxIDLength then .error errTooLarge
+     else if f.roomID.length > maxIDLength then .error errTooLarge
+     else .ok ())
   else match f.roomID with
     | 0x21 :: _ =>
       match roomIDValid? f.roomID with
@@ -427,6 +435,12 @@ def construct (fmt : Fmt) (ver : Bytes) (redacted : Bool) (text : Bytes) (j : JV
     | .ok () => .ok { ver := ver, fmt := fmt, redacted := redacted, json := text, obj := [], f := {} }
   | _ => .error errOther
 
+/-- The ID of the later formats is computed, never read: the struct decoding fills the field from an `event_id`
+    member (the untrusted constructors strip the exact key, but a case variant would survive; trusted JSON may carry
+    the member itself), so the V2 / V3 constructors that compute the ID reset the field first. -/
+def resetID (fmt : Fmt) (e0 : PDU) : PDU :=
+  if fmt == .v1 then e0 else { e0 with f := { e0.f with eventIDRaw := [] } }
+
 /-- `newEventFromTrustedJSONV1/V2/V3` on the value `j` that `text` denotes -/
 def trustedCore (H : Bytes → Bytes) (row : VGen.VersionRow) (ver : Bytes) (redacted : Bool) (text : Bytes) (j : JVal) : Except Err PDU :=
   match fmtOfName row.newEventFromTrustedJSONFunc with
@@ -434,7 +448,7 @@ def trustedCore (H : Bytes → Bytes) (row : VGen.VersionRow) (ver : Bytes) (red
   | some fmt =>
     match construct fmt ver redacted text j with
     | .error x => .error x
-    | .ok e => populateEventID H row e
+    | .ok e => populateEventID H row (resetID fmt e)
 
 def parseTrusted (H : Bytes → Bytes) (ver : Bytes) (redacted : Bool) (text : Bytes) : Except Err PDU :=
   match rowOf ver with
@@ -483,11 +497,6 @@ def contentHashOk (H : Bytes → Bytes) (kvs : Obj) : Bool :=
   match B64.decode (claimedHash kvs) with
   | none => false
   | some d => d == H (hashedBytes kvs)
-
-/-- The ID of the later formats is computed, never read: a case variant of `event_id` survives the
-    stripping and is matched by the struct decoding, so the constructors reset the field. -/
-def resetID (fmt : Fmt) (e0 : PDU) : PDU :=
-  if fmt == .v1 then e0 else { e0 with f := { e0.f with eventIDRaw := [] } }
 
 /-- `populateEventID` followed by `CheckFields` -/
 def idAndChecks (H : Bytes → Bytes) (row : VGen.VersionRow) (e : PDU) : Except Err PDU :=
@@ -549,6 +558,17 @@ def stripped (fmt : Fmt) (j : JVal) : JVal :=
   | .obj kvs => .obj (deleteKeys (stripKeys fmt) kvs)
   | v => v
 
+/-- the JSON names of the fields that decoding event JSON fills in (`eventJSONFieldNames` of event.go: the struct
+    tags of `eventV2`, which embeds `eventV1`, which embeds `eventFields`) -/
+def structFieldNames : List Bytes := [b!"room_id", b!"sender", b!"type", b!"state_key", b!"content", b!"redacts", b!"depth",
+  b!"unsigned", b!"origin_server_ts", b!"event_id", b!"prev_events", b!"auth_events", b!"msc4354_sticky", b!"sticky"]
+
+/-- `checkUntrustedEventJSON`, second check: a top-level member whose name equals a field name under Unicode case
+    folding (`strings.EqualFold`) without being that name -/
+def hasFieldVariant : JVal → Bool
+  | .obj kvs => kvs.any (fun kv => structFieldNames.any (fun n => kv.1 != n && foldBytes kv.1 == foldBytes n))
+  | _ => false
+
 /-- `newEventFromUntrustedJSONV1/V2/V3` -/
 def parseUntrusted (H : Bytes → Bytes) (ver : Bytes) (text : Bytes) : Except Err PDU :=
   match rowOf ver with
@@ -561,7 +581,9 @@ def parseUntrusted (H : Bytes → Bytes) (ver : Bytes) (text : Bytes) : Except E
       | some p =>
         if hasUnderscoreKey p.toJVal then .error errOther
         else if enf && !p.numbersOk then .error .badJSON
-        else if !p.toJVal.noDupKeys then .error (unmodelled "duplicate keys (canonical order unspecified)")
+        -- checkUntrustedEventJSON: a repeated member name in any object, a case variant of a struct field name
+        else if !p.toJVal.noDupKeys then .error .badJSON
+        else if hasFieldVariant p.toJVal then .error .badJSON
         else
           match construct fmt ver false (encodeCanon (stripped fmt p.toJVal)) (stripped fmt p.toJVal) with
           | .error x => .error x
@@ -651,6 +673,21 @@ def setUnsigned (e : PDU) (u : JVal) : Except Err PDU :=
     | none => .error (unmodelled "canonical check function")
     | some false => .error .badJSON
     | some true => .ok { e with json := encodeCanon (.obj kvs), obj := kvs, f := { e.f with unsigned := some u } }
+
+/-- `SetUnsignedField(k, v)` for a key `k` without gjson path syntax (no `.`, `*`, `?`, `#`, `|`, `:`, `@`, `\\`) and a
+    value already given as JSON: `sjson.SetBytes(json, "unsigned." ++ k, v)` creates the `unsigned` object when the
+    member is absent and replaces / appends the member `k` when it is an object; the event is changed IN PLACE
+    (only `JSON()` and `Unsigned()` change).  Another kind of `unsigned` member: not modelled. -/
+def setUnsignedField (e : PDU) (k : Bytes) (v : JVal) : Except Err PDU :=
+  let nu : Option JVal := match getFirst e.obj b!"unsigned" with
+    | none => some (.obj [(k, v)])
+    | some (.obj m) => some (.obj (setFirst k v m))
+    | some _ => none
+  match nu with
+  | none => .error (unmodelled "SetUnsignedField on an unsigned member that is not an object")
+  | some u =>
+    let kvs := setFirst b!"unsigned" u e.obj
+    .ok { e with json := encodeCanon (.obj kvs), obj := kvs, f := { e.f with unsigned := some u } }
 
 /-! ### Signing -/
 
